@@ -10,9 +10,13 @@ import Afkak.Consumer
   in `AfkakProps/C12.lean` proves the negation on a 27-byte message.
 * `C12_refetch_after_delivery`: the other half of the monitor `refetchOk`, on the consumer model — when
   the cut set still held complete messages, they are delivered, the next fetch starts right after
-  the last of them and the buffer is unchanged.  Monitored on the real `Consumer`; on the model it
-  is a statement about message delivery (property C02's machinery), not proved here.
-  (`C12_refetch_model` proves the too-small half.)
+  the last of them and the buffer is unchanged.  As written it quantifies over an ARBITRARY
+  re-entrant API `inner : Ops` (any four functions on states) and is therefore FALSE
+  (`C12_refetch_after_delivery_counterexample`: an `inner.stop` that rewinds the position).  For the
+  API the model actually runs with, `opsN cfg n` at every depth, the very same statement is PROVED
+  (`C12_refetch_after_delivery_model`), and for every `inner` that leaves position and buffer alone
+  (`C12_refetch_after_delivery_partial`).  Kept here, unmodified, because a statement is never edited
+  to make it provable.  (`C12_refetch_model` proves the too-small half.)
 -/
 namespace Afkak.Props.C12.Open
 open Afkak.Crc32 Afkak.WireCost Afkak.C12 Afkak.Monitor.C12
